@@ -2,14 +2,52 @@
 import importlib, os, json
 
 
+def _with_last_good_model(ctx, modname, corr):
+    """The translator or the model build failed on the current tree: rebuild the LAST GOOD model
+    (the committed coq/Gen files, for which the theorems hold) and run the correspondence with it,
+    so that a concrete input on which the implementation now departs from the proved model is
+    found (DESIGN 2.3: search for a failing input when an obligation breaks)."""
+    import subprocess, sys
+    regen_name = modname.replace('corr_', 'regen_')
+    try:
+        regen = importlib.import_module(regen_name)
+    except Exception:
+        return None
+    from common import VERIF
+    files = {}
+    tracked = subprocess.run(['git', '-C', VERIF, 'ls-files', 'coq/Gen'], capture_output=True, text=True).stdout.split()
+    probe = {'regen_context': ['GenContext'], 'regen_parser': ['GenGrammar'], 'regen_lexer': ['GenLexer'], 'regen_exit': ['GenExit'],
+             'regen_types': ['GenTypes'], 'regen_tracker': ['GenTracker']}.get(regen_name, [])
+    for rel in tracked:
+        if any(rel.endswith('/%s.v' % n) for n in probe):
+            files[rel] = subprocess.run(['git', '-C', VERIF, 'show', 'HEAD:' + rel], capture_output=True, text=True).stdout
+    if not files:
+        return None
+    for rel, text in files.items():          # also on disk: some correspondences compile coq/Gen as it is
+        with open(os.path.join(VERIF, rel), 'w') as f:
+            f.write(text)
+    orig = regen.generate
+    regen.generate = lambda root, _f=files: dict(_f)
+    try:
+        return corr.run(ctx.tier, ctx.seed, os.path.join(ctx.work, modname + '_lastgood'))
+    except Exception:
+        return None
+    finally:
+        regen.generate = orig
+
+
 def run_corr(ctx, modname, label, max_report=5):
     """Run tools/<modname>.py's correspondence and fold its result into ctx."""
+    corr = None
     try:
         corr = importlib.import_module(modname)
         res = corr.run(ctx.tier, ctx.seed, os.path.join(ctx.work, modname))
     except Exception as e:
-        ctx.oblige('correspondence: ' + label, False, 'correspondence crashed: %r' % (e,))
-        return None
+        ctx.oblige('correspondence: ' + label, False, 'correspondence could not run on the current tree: %r' % (e,))
+        res = _with_last_good_model(ctx, modname, corr) if corr else None
+        if res is None:
+            return None
+        label = label + ' [last good model]'
     dis = res.get('disagreements', [])
     detail = ''
     if dis:
